@@ -95,6 +95,9 @@ enum L {
     End,
     Sub(String, bool),
     EndSub,
+    /// `EXIT SUB` / `EXIT FUNCTION`: the procedure is left at once, with whatever GOSUBs of its own are pending
+    ExitSub,
+    ExitFunction,
     Function(String),
     SetFnResult(String, i32),
     EndFunction,
@@ -172,6 +175,8 @@ fn line_text(l: &L) -> String {
         L::Sub(n, false) => format!("SUB {}", n),
         L::Sub(n, true) => format!("SUB {} (X%)", n),
         L::EndSub => "END SUB".into(),
+        L::ExitSub => "EXIT SUB".into(),
+        L::ExitFunction => "EXIT FUNCTION".into(),
         L::Function(n) => format!("FUNCTION {} (X%)", n),
         L::SetFnResult(n, k) => format!("{} = {}", n, k),
         L::EndFunction => "END FUNCTION".into(),
@@ -531,6 +536,10 @@ impl<'a> Ref<'a> {
                 let lim = self.ex(&to)?;
                 let st = step.unwrap_or(1);
                 self.set(&var, from);
+                if st == 0 {
+                    // ForLoopZeroStep: the FOR statement fails (after the counter has its start value)
+                    return Err(258);
+                }
                 self.for_state.insert(pc, (lim, st));
                 let x = self.get(&var);
                 if (st >= 0 && x > lim) || (st < 0 && x < lim) { Go::To(self.k.mate[&pc] + 1) } else { Go::Fall }
@@ -663,7 +672,7 @@ impl<'a> Ref<'a> {
             }
             L::End => Go::Halt,
             L::Sub(..) | L::Function(_) => Go::Halt, // the module-level code ends where the procedures begin
-            L::EndSub | L::EndFunction => {
+            L::EndSub | L::EndFunction | L::ExitSub | L::ExitFunction => {
                 if self.frames.len() <= 1 {
                     return Ok(Go::Halt);
                 }
@@ -862,6 +871,7 @@ fn run_real(text: &str, want_trace: bool, budget: u64) -> Result<RealRun, String
             Instruction::PushRet(_) => b'c',
             Instruction::PopRet => b'r',
             Instruction::ResumeLabel(_) => b'l',
+            Instruction::Resume | Instruction::ResumeNext => b'n',
             Instruction::GoSub(_) => b'g',
             Instruction::Return(_) => b't',
             _ => b'w',
@@ -1146,7 +1156,18 @@ fn record(cx: &mut Ctx, job: &Job, done: Done) -> Option<Failure> {
         let ops: Vec<String> = real
             .snaps
             .iter()
-            .map(|sn| match real.frame_op.get(sn.pc) {
+            .enumerate()
+            .map(|(k, sn)| match real.frame_op.get(sn.pc) {
+                // the instruction fails and the error is handed to the ON ERROR GOTO handler (the next instruction executed is
+                // the handler's first, the failing address is recorded): the height is recorded, the handler gets a frame of
+                // its own (dee4bd6, df9ea58)
+                _ if sn.hk == 2
+                    && real.snaps.get(k + 1).map(|nx| nx.pc == sn.ha && nx.ea == Some(sn.pc)).unwrap_or(false) =>
+                {
+                    "e".to_owned()
+                }
+                // RESUME / RESUME NEXT with an error to resume from: back to the recorded height
+                Some(b'n') if sn.ea.is_some() => "n".to_owned(),
                 Some(b'u') => "u".to_owned(),
                 Some(b'o') => "o".to_owned(),
                 Some(b'c') => "c".to_owned(),
@@ -1720,6 +1741,242 @@ fn return_out_family(cx: &mut Ctx, thorough: bool) {
     }
 }
 
+// ---- B3. procedures left while a GOSUB of their own is pending, called from a caller's GOSUB routine (after a wave-9 seed)
+
+const LEAVES: [&str; 9] = ["exit-sub", "end-sub", "exit-sub-second-call", "nested-exit", "exit-function", "end-function", "resume-label", "return", "return-function"];
+const LP_SITES: [&str; 4] = ["none", "for", "forstep", "while"];
+
+/// The procedure `Q` (or the function `G%`) issues a GOSUB of its own (`q_for`: from inside a FOR of its own) and is
+/// left without answering it: EXIT SUB / EXIT FUNCTION inside the routine (at once, on the second call only, or from a
+/// second routine nested in the first), END SUB / END FUNCTION reached by running into the routine, or an error in the
+/// routine handled in the main module by RESUME label (`return`, `return-function`: controls, the routine RETURNs).
+/// It is called from inside the caller's own GOSUB routine `RT`, at FOR / SELECT CASE depth `nest.len()` (0..2) of that
+/// routine, which then RETURNs from inside those constructs (guarded: in the second round only); with `chain2` the
+/// caller has two GOSUBs pending (`RA` calls `RB` from inside a construct, `RB` calls the procedure).  The caller's
+/// GOSUB is issued inside `site` (none / FOR / FOR STEP / WHILE) of the main module or of a SUB called from a FOR body.
+/// Every loop prints its counter in every round: a RETURN that takes the heights of a GOSUB that is not its own shows
+/// as a loop running on another loop's limit and step.
+fn left_pending(site: &str, nest: &[&str], guarded: bool, leave: &str, q_for: bool, caller_sub: bool, chain2: bool) -> Prog {
+    let mut p = Prog::new();
+    let is_fn = matches!(leave, "exit-function" | "end-function" | "return-function");
+    let resume = leave == "resume-label";
+    let site_var = loop_var(if site == "none" { "for" } else { site }, 1);
+    // ---- the caller: the GOSUB site and the routine(s)
+    let mut b: Vec<L> = vec![];
+    if site != "none" {
+        b.extend(open(site, 1));
+    }
+    b.push(tok("a"));
+    b.push(L::Gosub(s(if chain2 { "RA" } else { "RT" })));
+    // the label of RESUME label lives in the main module, inside the FOR / WHILE body that issued the GOSUB (behind
+    // the loop for FOR ... STEP: a label in such a body is known finding C05-a)
+    let lr_inside = resume && !caller_sub && site != "forstep";
+    if lr_inside {
+        b.push(L::Label(s("LR")));
+    }
+    b.push(L::PrintVars(s("back"), vec![site_var.clone()]));
+    if site != "none" {
+        b.extend(close(site, 1));
+    }
+    if resume && !caller_sub && !lr_inside {
+        b.push(L::Label(s("LR")));
+    }
+    b.push(L::PrintVars(s("end"), vec![site_var.clone()]));
+    // the stacks must be sane afterwards: another nest runs its full course
+    b.push(L::For { var: s("I3%"), from: 1, to: Ex::K(2), step: None });
+    b.push(L::Select(Ex::K(2)));
+    b.push(L::Case(vec![2]));
+    b.push(L::PrintVars(s("z"), vec![s("I3%")]));
+    b.push(L::EndSelect);
+    b.push(L::Next);
+    let call = if is_fn { L::AssignFn(s("G%")) } else { L::Call(s("Q"), None) };
+    // a routine: its constructs (levels j0, j0 + 1, ...), the payload, the RETURN from inside them
+    let routine = |label: &str, kinds: &[&str], j0: usize, payload: Vec<L>| -> Vec<L> {
+        let mut r: Vec<L> = vec![L::Label(s(label)), L::Tok(format!("{}0", label.to_lowercase()))];
+        let mut vars: Vec<String> = vec![];
+        for (j, k) in kinds.iter().enumerate() {
+            r.extend(open(k, j0 + j));
+            if !matches!(*k, "select" | "if") {
+                vars.push(loop_var(k, j0 + j));
+            }
+        }
+        r.extend(payload);
+        if vars.is_empty() {
+            r.push(L::Tok(format!("{}1", label.to_lowercase())));
+        } else {
+            r.push(L::PrintVars(format!("{}1", label.to_lowercase()), vars.clone()));
+        }
+        match kinds.last() {
+            Some(last) if guarded && !matches!(*last, "select" | "if") => {
+                r.push(L::If(Cond::Eq(loop_var(last, j0 + kinds.len() - 1), 2)));
+                r.push(L::Return(None));
+                r.push(L::EndIf);
+            }
+            Some(_) => r.push(L::Return(None)),
+            None => {}
+        }
+        r.push(L::Tok(format!("{}x", label.to_lowercase())));
+        for (j, k) in kinds.iter().enumerate().rev() {
+            r.extend(close(k, j0 + j));
+        }
+        r.push(L::Tok(format!("{}y", label.to_lowercase())));
+        r.push(L::Return(None));
+        r
+    };
+    let count_call = vec![L::Add(s("G1%"), 1), call];
+    let routines: Vec<L> = if chain2 {
+        let (k1, k2) = (nest[0], nest[1]);
+        let mut v = routine("RA", &[k1], 2, vec![L::Gosub(s("RB"))]);
+        v.extend(routine("RB", &[k2], 3, count_call));
+        v
+    } else {
+        routine("RT", nest, 2, count_call)
+    };
+    if resume {
+        p.push(L::OnErrGoto(s("HH")));
+    }
+    if caller_sub {
+        p.push(L::For { var: s("W%"), from: 1, to: Ex::K(2), step: None });
+        p.push(L::Call(s("P"), None));
+        if resume {
+            p.push(L::Label(s("LR")));
+        }
+        p.push(L::PrintVars(s("caller"), vec![s("W%")]));
+        p.push(L::Next);
+    } else {
+        p.extend(b.clone());
+    }
+    p.push(L::Label(s("GIVEUP")));
+    p.push(L::End);
+    if !caller_sub {
+        p.extend(routines.clone());
+    }
+    if resume {
+        p.push(L::Label(s("HH")));
+        p.push(L::Add(s("N%"), 1));
+        p.push(L::If(Cond::Ge(s("N%"), Ex::K(40))));
+        p.push(L::Goto(s("GIVEUP")));
+        p.push(L::EndIf);
+        p.push(L::PrintErr(s("h")));
+        p.push(L::ResumeLabel(s("LR")));
+    }
+    if caller_sub {
+        p.push(L::Sub(s("P"), false));
+        p.extend(b);
+        p.push(L::Goto(s("FIN")));
+        p.extend(routines);
+        p.push(L::Label(s("FIN")));
+        p.push(L::EndSub);
+    }
+    // ---- the procedure that is left with its own GOSUB pending
+    let exit = if is_fn { L::ExitFunction } else { L::ExitSub };
+    if is_fn {
+        p.push(L::Function(s("G%")));
+        p.push(L::SetFnResult(s("G%"), 7));
+    } else {
+        p.push(L::Sub(s("Q"), false));
+    }
+    p.push(tok("q0"));
+    if q_for {
+        p.push(L::For { var: s("M%"), from: 1, to: Ex::K(2), step: None });
+    }
+    p.push(L::Gosub(s("QR")));
+    p.push(if q_for { L::PrintVars(s("q1"), vec![s("M%")]) } else { tok("q1") });
+    if q_for {
+        p.push(L::Next);
+    }
+    p.push(tok("q2"));
+    if !matches!(leave, "end-sub" | "end-function") {
+        p.push(exit.clone());
+    }
+    p.push(L::Label(s("QR")));
+    p.push(tok("qr"));
+    match leave {
+        "exit-sub" | "exit-function" => p.push(exit.clone()),
+        "end-sub" | "end-function" => {}
+        "exit-sub-second-call" => {
+            p.push(L::If(Cond::Ge(s("G1%"), Ex::K(2))));
+            p.push(exit.clone());
+            p.push(L::EndIf);
+            p.push(L::Return(None));
+        }
+        "nested-exit" => {
+            p.push(L::Gosub(s("QS")));
+            p.push(tok("not-here"));
+            p.push(L::Return(None));
+            p.push(L::Label(s("QS")));
+            p.push(tok("qs"));
+            p.push(exit.clone());
+        }
+        "resume-label" => {
+            p.push(L::Fail(FK::AsgDiv));
+            p.push(tok("not-here"));
+            p.push(L::Return(None));
+        }
+        _ => p.push(L::Return(None)),
+    }
+    p.push(if is_fn { L::EndFunction } else { L::EndSub });
+    p
+}
+
+fn left_pending_family(cx: &mut Ctx, thorough: bool) {
+    let nests: [&[&str]; 8] = [&[], &["for"], &["forstep"], &["select"], &["for", "for"], &["for", "select"], &["select", "for"], &["forstep", "for"]];
+    let mut push = |cx: &mut Ctx, site: &str, nest: &[&str], guarded: bool, leave: &str, q_for: bool, caller_sub: bool, chain2: bool| {
+        let p = left_pending(site, nest, guarded, leave, q_for, caller_sub, chain2);
+        let sig = format!(
+            "left-pending:{}{}:{}return-from-{}:gosub-in-{}:{}",
+            leave,
+            if q_for { "-in-for" } else { "" },
+            // RESUME label: one signature per GOSUB site (recorded finding C05-i does not depend on the routine's own nest)
+            if chain2 && leave != "resume-label" { "two-pending:" } else { "" },
+            if leave == "resume-label" { "*".to_owned() } else if nest.is_empty() { "top".to_owned() } else { nest.join(">") },
+            site,
+            if caller_sub { "sub" } else { "main" }
+        );
+        cx.counter += 1;
+        let trace = cx.model_every > 0;
+        cx.jobs.push(Job { p, sig, class: format!("left-pending.{}", leave), trace, matrix_key: None, big: true, frames: false });
+    };
+    for site in LP_SITES {
+        for nest in nests {
+            for leave in LEAVES {
+                for guarded in [false, true] {
+                    let loop_last = nest.last().map(|k| !matches!(*k, "select" | "if")).unwrap_or(false);
+                    if guarded && !loop_last {
+                        continue;
+                    }
+                    for q_for in [false, true] {
+                        for caller_sub in [false, true] {
+                            // quick: the procedure's own FOR for the plain exits only, the caller inside a SUB for a GOSUB
+                            // issued in a FOR body only
+                            if !thorough && q_for && !matches!(leave, "exit-sub" | "end-sub" | "exit-function") {
+                                continue;
+                            }
+                            if !thorough && caller_sub && (site != "for" || q_for || guarded) {
+                                continue;
+                            }
+                            push(cx, site, nest, guarded, leave, q_for, caller_sub, false);
+                        }
+                    }
+                }
+            }
+        }
+        // two GOSUBs pending in the caller: the heights of the inner one must not be handed to the outer one
+        for k1 in ["for", "select", "forstep"] {
+            for k2 in ["for", "forstep", "select"] {
+                for leave in LEAVES {
+                    for guarded in [false, true] {
+                        if (guarded && k2 == "select") || (!thorough && guarded && k1 != "for") {
+                            continue;
+                        }
+                        push(cx, site, &[k1, k2], guarded, leave, false, false, true);
+                    }
+                }
+            }
+        }
+    }
+}
+
 // ---- C. GOTO out of loops
 
 const LOOPS: [&str; 6] = ["for", "forstep", "forneg", "while", "dotop", "dobottom"];
@@ -2128,14 +2385,14 @@ fn goto_target_family(cx: &mut Ctx, rng: &mut Rng, thorough: bool) {
 
 // ---- D. the ON ERROR matrix: failing statement kind x position x resume mode
 
-const KINDS: [&str; 17] = [
-    "asg-div", "asg-ovf", "print", "array", "builtin", "read", "sub-arg", "for-hdr", "if-cond", "elseif-cond", "while-cond",
-    "dotop-cond", "loop-cond", "select-expr", "next-ovf", "return-no-gosub", "const-then-return",
+const KINDS: [&str; 20] = [
+    "asg-div", "asg-ovf", "print", "array", "builtin", "read", "sub-arg", "for-hdr", "for-zero", "if-cond", "elseif-cond", "while-cond",
+    "dotop-cond", "loop-cond", "select-expr", "next-ovf", "next-ovf-step", "next-ovf-neg", "return-no-gosub", "const-then-return",
 ];
-const POSITIONS: [&str; 27] = [
+const POSITIONS: [&str; 28] = [
     "main-mid", "main-last", "if-first", "if-mid", "if-last", "if-last-noelse", "elseif-last", "else-last", "for-first", "for-last",
     "forstep-last", "forneg-last", "while-first", "while-last", "dotop-last", "dobottom-last", "case-first", "case-last",
-    "caseelse-last", "sub-first", "sub-mid", "sub-last", "fn-last", "gosub-last", "for-in-for-last", "sub-in-for", "select-in-for-last",
+    "caseelse-last", "sub-first", "sub-mid", "sub-last", "fn-last", "gosub-last", "gosub-in-for", "for-in-for-last", "sub-in-for", "select-in-for-last",
 ];
 const MODES: [&str; 6] = ["resume", "resume-next", "resume-label", "on-error-resume-next", "goto-0", "no-handler"];
 
@@ -2158,7 +2415,11 @@ fn failing(kind: &str) -> Vec<L> {
         }
         "loop-cond" => vec![L::Set(c.clone(), 0), L::Do(None), L::Add(c.clone(), 1), tok("w"), L::Loop(Some((true, Cond::Ge(c, Ex::DivD(2)))))],
         "select-expr" => vec![L::Select(Ex::DivD(3)), L::Case(vec![3]), tok("c3"), L::CaseElse, tok("ce"), L::EndSelect],
+        // a zero step fails the FOR statement (error 258): RESUME runs the FOR again, RESUME NEXT continues behind NEXT
+        "for-zero" => vec![L::For { var: c, from: 1, to: Ex::K(3), step: Some(0) }, tok("k"), L::Next],
         "next-ovf" => vec![L::For { var: c, from: 32766, to: Ex::K(32767), step: None }, tok("n"), L::Next],
+        "next-ovf-step" => vec![L::For { var: c, from: 32765, to: Ex::K(32767), step: Some(2) }, tok("n"), L::Next],
+        "next-ovf-neg" => vec![L::For { var: c, from: -32767, to: Ex::K(-32768), step: Some(-1) }, tok("n"), L::Next],
         "return-no-gosub" => vec![L::Return(None)],
         "const-then-return" => vec![L::Const, L::Return(None)],
         _ => unreachable!(),
@@ -2167,14 +2428,16 @@ fn failing(kind: &str) -> Vec<L> {
 
 fn matrix_program(kind: &str, pos: &str, mode: &str) -> Option<Prog> {
     // RESUME would fail again for ever when the handler cannot repair the cause
-    if mode == "resume" && matches!(kind, "read" | "next-ovf" | "return-no-gosub" | "const-then-return") {
+    // (a failed NEXT is run again after the handler has moved the counter back: the loop goes round once more and NEXT fails
+    // again; a zero step fails again; both until the handler gives up after nine calls)
+    if mode == "resume" && matches!(kind, "read" | "return-no-gosub" | "const-then-return") {
         return None;
     }
     if pos == "main-last" && mode == "resume-label" {
         return None;
     }
     // a pending GOSUB would make the bare RETURN succeed
-    if pos == "gosub-last" && matches!(kind, "return-no-gosub" | "const-then-return") {
+    if matches!(pos, "gosub-last" | "gosub-in-for") && matches!(kind, "return-no-gosub" | "const-then-return") {
         return None;
     }
     let lr = mode == "resume-label";
@@ -2195,6 +2458,14 @@ fn matrix_program(kind: &str, pos: &str, mode: &str) -> Option<Prog> {
         p.push(L::PrintVars(s("hv"), vec![s("D%"), s("V%")]));
         p.push(L::Set(s("D%"), 1));
         p.push(L::Set(s("W%"), 9));
+        if mode == "resume" {
+            match kind {
+                "next-ovf" => p.push(L::Set(s("C3%"), 32765)),
+                "next-ovf-step" => p.push(L::Set(s("C3%"), 32763)),
+                "next-ovf-neg" => p.push(L::Set(s("C3%"), -32766)),
+                _ => {}
+            }
+        }
         p.push(match mode {
             "resume" => L::Resume,
             "resume-label" => L::ResumeLabel(s("LR")),
@@ -2369,6 +2640,15 @@ fn matrix_program(kind: &str, pos: &str, mode: &str) -> Option<Prog> {
             b.extend(st.clone());
             b.extend(vec![L::Return(None), L::Label(s("X1"))]);
             label(&mut b);
+        }
+        "gosub-in-for" => {
+            // the routine is called from a FOR body; the target of RESUME label is a label of the ROUTINE (26672d3: the
+            // frame of the FOR whose body issued the GOSUB must survive the RESUME label)
+            b.push(L::For { var: s("I1%"), from: 1, to: Ex::K(2), step: None });
+            b.extend(vec![L::Gosub(s("R1")), L::PrintVars(s("b"), vec![s("I1%")]), L::Next, L::Goto(s("X1")), L::Label(s("R1")), tok("r")]);
+            b.extend(st.clone());
+            label(&mut b);
+            b.extend(vec![tok("l"), L::Return(None), L::Label(s("X1"))]);
         }
         "for-in-for-last" => {
             b.push(L::For { var: s("I1%"), from: 1, to: Ex::K(2), step: None });
@@ -2813,6 +3093,11 @@ fn main() {
 
     if want("B") {
         return_out_family(&mut cx, thorough);
+        run_jobs(&mut cx);
+    }
+    if want("B") || want("P") {
+        left_pending_family(&mut cx, thorough);
+        cx.rep.exhaustive_parts.push("procedures left while a GOSUB of their own is pending (EXIT SUB / EXIT FUNCTION inside the routine, at once / on the second call / from a nested routine; END SUB / END FUNCTION reached inside the routine; an error in the routine handled by RESUME label; controls that RETURN) x the procedure's GOSUB issued at its top level / in a FOR x called at FOR / SELECT CASE depth 0..2 of the caller's own GOSUB routine, which RETURNs from inside those constructs (at once / in the second round) x the caller's GOSUB issued in none / FOR / FOR STEP / WHILE x caller = main module / SUB called from a FOR body x one or two GOSUBs pending in the caller (quick: the procedure's FOR and the SUB caller sampled)".into());
         run_jobs(&mut cx);
     }
     eprintln!("gosub done {:?}", t0.elapsed());
